@@ -38,19 +38,19 @@ ELEM *g_st;                   /* the storage */
 #define SPEC_ST(c) 1
 #endif
 /* destroy loop of erase() (i elements destroyed): destruction changes no value */
-#define SPEC_VAL0 SPEC_VAL((g_k >= CAP || g_st[g_k].v == g_old_k.v) && (g_k >= CAP || g_k + g_sz >= g_m || g_st[g_k + g_sz].v == g_src_v))
+#define SPEC_VAL0 SPEC_VAL((g_k >= CAP || ELEM_V(&g_st[g_k]) == ELEM_V(&g_old_k)) && (g_k >= CAP || g_k + g_sz >= g_m || ELEM_V(&g_st[g_k + g_sz]) == g_src_v))
 /* ... states: [0,f) LIVE, [f,f+i) RAW, [f+i,m) LIVE, [m,N) RAW */
-#define SPEC_ST0(j) SPEC_ST((j) >= CAP || ((j) < g_f ? g_st[j].g_state == ELEM_LIVE : (j) < g_f + i ? g_st[j].g_state == ELEM_RAW \
-                                          : (j) < g_m ? g_st[j].g_state == ELEM_LIVE : g_st[j].g_state == ELEM_RAW))
+#define SPEC_ST0(j) SPEC_ST((j) >= CAP || ((j) < g_f ? ELEM_ST(&g_st[j]) == ELEM_LIVE : (j) < g_f + i ? ELEM_ST(&g_st[j]) == ELEM_RAW \
+                                          : (j) < g_m ? ELEM_ST(&g_st[j]) == ELEM_LIVE : ELEM_ST(&g_st[j]) == ELEM_RAW))
 /* std::move loop (t = g_mv_i elements moved): slot g_k is untouched below f and holds old[g_k+sz] once assigned; old[g_k+sz] is still in
    place until it is moved */
-#define SPEC_VAL1 SPEC_VAL((g_k >= g_f || g_st[g_k].v == g_old_k.v) && \
-                           (!(g_f <= g_k && g_k < g_f + g_mv_i) || g_st[g_k].v == g_src_v) && \
-                           (!(g_f + g_mv_i <= g_k && g_k < CAP && g_k + g_sz < g_m) || g_st[g_k + g_sz].v == g_src_v))
+#define SPEC_VAL1 SPEC_VAL((g_k >= g_f || ELEM_V(&g_st[g_k]) == ELEM_V(&g_old_k)) && \
+                           (!(g_f <= g_k && g_k < g_f + g_mv_i) || ELEM_V(&g_st[g_k]) == g_src_v) && \
+                           (!(g_f + g_mv_i <= g_k && g_k < CAP && g_k + g_sz < g_m) || ELEM_V(&g_st[g_k + g_sz]) == g_src_v))
 /* ... states: [0,f) LIVE, [f,f+t) LIVE (assigned), [f+t,l) RAW (destroyed, not assigned yet), [max(l,f+t), l+t) MOVED-from, [l+t,m) LIVE, [m,N) RAW */
-#define SPEC_ST1(j) SPEC_ST((j) >= CAP || ((j) < g_f + g_mv_i ? g_st[j].g_state == ELEM_LIVE : (j) < g_l ? g_st[j].g_state == ELEM_RAW \
-                                          : (j) < g_l + g_mv_i ? g_st[j].g_state == ELEM_MOVED : (j) < g_m ? g_st[j].g_state == ELEM_LIVE \
-                                          : g_st[j].g_state == ELEM_RAW))
+#define SPEC_ST1(j) SPEC_ST((j) >= CAP || ((j) < g_f + g_mv_i ? ELEM_ST(&g_st[j]) == ELEM_LIVE : (j) < g_l ? ELEM_ST(&g_st[j]) == ELEM_RAW \
+                                          : (j) < g_l + g_mv_i ? ELEM_ST(&g_st[j]) == ELEM_MOVED : (j) < g_m ? ELEM_ST(&g_st[j]) == ELEM_LIVE \
+                                          : ELEM_ST(&g_st[j]) == ELEM_RAW))
 #define C14_MOVE_LOOP_CONTRACT \
     __CPROVER_assigns(g_mv_i, __CPROVER_object_whole(g_st)) \
     __CPROVER_loop_invariant(g_mv_i <= n && n == g_m - g_l) \
@@ -75,7 +75,7 @@ void harness(void)
     g_f = f; g_l = l; g_m = m; g_sz = sz; g_st = v._data;
     ELEM *storage = v._data;
     if (k < cap) g_old_k = v._data[k];
-    if (k < cap && k + sz < m) g_src_v = v._data[k + sz].v;
+    if (k < cap && k + sz < m) g_src_v = ELEM_V(&v._data[k + sz]);
 #ifdef KF_C14_erase_lifetime
     /* known finding: erase destroys [first,last) FIRST and then move-assigns the tail into the destroyed slots, and the
        moved-from slots at the end are dropped without being destroyed (region: something erased and a tail to move);
@@ -88,8 +88,8 @@ void harness(void)
     V(__CPROVER_assert(v._data == storage, "storage pointer untouched");)
     V(__CPROVER_assert(v.m_size == m - sz && SV_SIZE_OK(&v), "size' == size - (last - first)");)
     if (k < cap) {
-        if (k < f) V(__CPROVER_assert(v._data[k].v == g_old_k.v, "elements before first keep their values");)
-        if (k >= f && k < m - sz) V(__CPROVER_assert(v._data[k].v == g_src_v, "element k >= first is the old element k + (last - first)");)
+        if (k < f) V(__CPROVER_assert(ELEM_V(&v._data[k]) == ELEM_V(&g_old_k), "elements before first keep their values");)
+        if (k >= f && k < m - sz) V(__CPROVER_assert(ELEM_V(&v._data[k]) == g_src_v, "element k >= first is the old element k + (last - first)");)
         L(__CPROVER_assert(SV_SLOT_OK(&v, k), "SV: slots below m_size LIVE, the others RAW (erased and vacated elements destroyed exactly once)");)
     }
     CANARY("erase end reachable");
